@@ -520,7 +520,7 @@ def main():
     if chk.seed:
         import random
         random.Random(chk.seed).shuffle(items)
-    cap_s = int(os.environ.get("VERIF_WALL_CAP", 840 if thorough else 40))
+    cap_s = int(os.environ.get("VERIF_WALL_CAP", 840 if thorough else 50))
     capped = False
     members_done = 0
     stats = dict(links=0, accepted=0, rejected=0, native_runs=0, native_ok=0, consumer_runs=0,
